@@ -17,16 +17,16 @@ import XotModel.Model.ParseTypes
 namespace XotModel
 
 /-- `prefix:local`, or `local` when the prefix is empty. -/
-def qname (pfx loc : Str) : Str := if pfx.isEmpty then loc else pfx ++ ':' :: loc
+def tokQName (pfx loc : Str) : Str := if pfx.isEmpty then loc else pfx ++ ':' :: loc
 
 /-- The canonical spelling of one token (DTD tokens and the XML declaration have none here:
     they render as nothing; a canonical token list does not contain them). -/
 def renderToken : Token → Str
-  | .elementStart p l _ => '<' :: qname p.text l.text
-  | .attribute p l v _ => ' ' :: (qname p.text l.text ++ '=' :: '"' :: (v.text ++ ['"']))
+  | .elementStart p l _ => '<' :: tokQName p.text l.text
+  | .attribute p l v _ => ' ' :: (tokQName p.text l.text ++ '=' :: '"' :: (v.text ++ ['"']))
   | .elementEnd .open _ => ['>']
   | .elementEnd .empty _ => ['/', '>']
-  | .elementEnd (.close p l) _ => '<' :: '/' :: (qname p.text l.text ++ ['>'])
+  | .elementEnd (.close p l) _ => '<' :: '/' :: (tokQName p.text l.text ++ ['>'])
   | .text t => t.text
   | .cdata t _ => ['<', '!', '[', 'C', 'D', 'A', 'T', 'A', '['] ++ t.text ++ [']', ']', '>']
   | .comment t _ => ['<', '!', '-', '-'] ++ t.text ++ ['-', '-', '>']
